@@ -195,7 +195,7 @@ PROPS["C19"] = dict(
           "Accept header shapes {none, json, ndjson, */*, q-lists, two headers, upper case, unsupported, malformed} x 4 path prefixes: same "
           "results in order, NDJSON one result per line, empty set => 404 / empty response, bad requests => 4xx API error that decodes with "
           "its status; apierror Encode/Decode/FromResponse round trips. distinct_nontrivial = distinct (accept kind, key kind, empty?) and list-size tuples."),
-    floors={"quick": {"ndjson_responses": 300, "json_responses": 1000, "empty_sets": 200, "rejected_accept": 300, "rejected_key": 300, "key_hex": 100, "key_cidv0": 100}},
+    floors={"quick": {"ndjson_responses": 300, "json_responses": 1000, "empty_sets": 200, "rejected_accept": 300, "rejected_key": 300, "key_hex": 100, "key_cidv0": 100, "large_result_sets": 20}},
     level_text=("Exploration: the real writer and the real client talk over a local socket for thousands of generated result sets and request "
                 "shapes; the oracle is equality with what was written plus the status-code contract."),
     level_note="Trusted: the handler glue in harness/props/c19.go mirrors how an indexer uses the writer (assumption); Go's net/http.",
@@ -217,7 +217,7 @@ PROPS["C03"] = dict(
           "/p2p/<id> in the address): rejected, no block request after the head request, no hook, no store write, latest-synced unchanged; "
           "genuine heads sync; and every head the publisher serves validates to its own ID, root and topic. distinct_nontrivial = distinct "
           "(key type, alteration, topic present / mount / id placement) tuples."),
-    floors={"quick": {"e2e_rejections_expected": 120, "e2e_genuine_syncs": 10, "bytes_decodable_rejected": 2000, "publisher_heads_checked": 150, "e2e_mode_libp2phttp-discovery": 20}},
+    floors={"quick": {"e2e_rejections_expected": 120, "e2e_genuine_syncs": 10, "bytes_decodable_rejected": 2000, "publisher_heads_checked": 150, "e2e_mode_libp2phttp-discovery": 20, "e2e_replays_after_genuine_sync": 5, "setroot_then_head_checks": 200}},
     level_text=("Exploration: real signing, encoding, head queries and syncs; every listed alteration kind and every byte of sampled encodings is "
                 "tried for every key type, and the end-to-end effect (no request after the head, no latest-synced change) is observed at a "
                 "logging publisher front."),
